@@ -65,6 +65,35 @@ impl Probe for StageProbe {
                     }
                 }
             }
+            // (f) discarding and staging the same edits again reaches the same staged state
+            {
+                let is_edit = |o: &Op| matches!(o, Op::Upd(..) | Op::ObjPut(..) | Op::ObjDel(..));
+                // maximal suffix of the history in which replica r only edited
+                let suffix_len = hist.iter().rev().take_while(|o| o.replica() != r || is_edit(o)).count();
+                let idx = hist.len() - suffix_len;
+                let staged_ops: Vec<Op> = hist[idx..].iter().filter(|o| o.replica() == r).cloned().collect();
+                let was_clean = {
+                    let wpre = sc.build(&hist[..idx]);
+                    !wpre.any_dead() && !has_staging(&wpre.reps[r].m)
+                };
+                if !staged_ops.is_empty() && was_clean {
+                    let mut w = sc.build(hist);
+                    let mut h = hist.to_vec();
+                    w.apply(&Op::Unstage(r));
+                    h.push(Op::Unstage(r));
+                    for op in &staged_ops {
+                        w.apply(op);
+                        h.push(op.clone());
+                    }
+                    w.focus();
+                    let (v, s) = (w.view(r), stage_export(&w.reps[r].m));
+                    cx.count("discard_and_redo");
+                    if v != v0 || s != s0 {
+                        cx.violation("C15", "C15:redoing-discarded-edits-gives-a-different-stage", sc, &h,
+                            json!({"replica": r, "view_differs": diff_keys(&v, &v0), "stage_equal": s == s0, "stage_first_time": s0, "stage_after_discard_and_redo": s}));
+                    }
+                }
+            }
             // (d) reload / refresh / time travel refuse to run and change nothing
             let mut guarded = vec![Op::Reload(r), Op::Refresh(r)];
             for k in 0..w0.reps[r].heads.len().min(3) {
